@@ -2,6 +2,7 @@
 import json
 import os
 import shutil
+import tempfile
 
 import apel
 import clirun
@@ -51,8 +52,20 @@ def run(tier, seed):
             sub = {'archive': [('arch_%s' % pid, files[0][1] if files else b'x'), ('other', b'data')], 'nested': {'deeper': [('%s.pel' % pid, b'zz')]}}
             argvs = [['-l'], ['-a'], ['-n'], ['-l', '-x'], ['-i', pid], ['--bmc-id', '1'], ['--plid', pid], ['--src', 'BD'], ['-l', '-D'], ['-a', '-d', pid], ['-n', '-D'],
                      ['-d', pid], ['-d', '0x' + pid.lower()], ['-d', 'FFFFFFF0'], ['-d', '123'], ['-D'], ['-j'], ['-j', '-c'], ['-j', '-D'], ['-i', pid, '-D']]
-            for argv in (argvs if thorough else rng.sample(argvs, 9) + [['-d', pid], ['-D']]):
-                path = clirun.make_dir(files, subdirs=sub)
+            # an id that names no top-level file (it occurs in the directory PATH and inside subdirectories only)
+            ghost = '%08X' % next(x for x in (0x5EED0000 + k for k in range(99)) if all('%08X' % x not in n for n, _ in files))
+            sub['ghost'] = [('only_in_subdir_%s' % ghost, b'sub')]
+            argvs += [['-d', ghost], ['-d', '0x' + ghost]]
+            variants = [(argv, files, None) for argv in (argvs if thorough else rng.sample(argvs, 9) + [['-d', pid], ['-D'], ['-d', ghost]])]
+            # the directory's own path contains an id; a directory without top-level files whose subdirectories have files
+            variants += [(['-d', ghost], files, ghost), (['-d', pid], files, pid), (['-D'], files, ghost),
+                         (['-D'], [], None), (['-d', pid], [], None), (['-l'], [], None), (['-j', '-c'], [], None)]
+            for argv, files, in_path in variants:
+                base = None
+                if in_path:
+                    base = tempfile.mkdtemp(prefix='pels_%s_' % in_path)
+                    paths.append(base)
+                path = clirun.make_dir(files, subdirs=sub, base=base)
                 paths.append(path)
                 outdir = None
                 extra = []
